@@ -14,6 +14,7 @@ import os
 import re
 import shutil
 import tempfile
+import time
 
 from vlib.core import run_cmd, VERIF
 from vlib.build import BuildError
@@ -55,9 +56,18 @@ THEOREMS = [
     "JanetModel.Props.C01.weak_table_wf_preserved",
     "JanetModel.Props.C01.weak_kinds",
     "JanetModel.Props.C01.dropSlot_iff",
+    # session 4: the mark phase's ring-buffer walks (run queue, channel pending queues, channel items)
+    "JanetModel.Props.C01.ring_walks_as_modelled",
+    "JanetModel.Props.C01.mark_ring_walk_visits_all",
+    "JanetModel.Props.C01.mark_ring_walk_all_histories",
+    # session 4: the sweep's side effect on the symbol cache (collect composed with the symbol-cache model)
+    "JanetModel.Props.C01.symcache_facts_agree",
+    "JanetModel.Props.C01.collect_keeps_symcache_tied",
+    "JanetModel.Props.C01.intern_same_after_collect",
+    "JanetModel.Props.C01.symcache_no_dangling_after_collect",
 ]
 H = os.path.join(VERIF, "harness/C01")
-SOURCES = [os.path.join(H, x) for x in ("gch.c", "w_ev.c", "w_net.c", "w_os.c", "w_filewatch.c", "w_ffi.c")]
+SOURCES = [os.path.join(H, x) for x in ("gch.c", "w_ev.c", "w_net.c", "w_os.c", "w_filewatch.c", "w_ffi.c", "w_symcache.c")]
 ROOT_SOURCES = [os.path.join(H, x) for x in ("roots.c", "w_vm.c")]
 ROOT_OPS = os.path.join(VERIF, "corpus/C01/roots")
 EDGES = os.path.join(VERIF, "corpus/C01/edges")
@@ -103,7 +113,9 @@ def run_job(exes, job, tmp):
     cmd = [exes[job.variant], job.prog] + list(job.args)
     if job.stack_kb:
         cmd = ["prlimit", "--stack=%d" % (job.stack_kb * 1024)] + cmd
+    t0 = time.time()
     rc, out, err = run_cmd(cmd, timeout=job.timeout, cwd=job.cwd, env=env)
+    job.secs = time.time() - t0
     rep = ""
     if os.path.exists(rp):
         with open(rp, errors="replace") as f:
@@ -132,6 +144,24 @@ def parse_report(rep):
     return findings, summary, labels, crit
 
 
+SYM_BITS = 18          # engineered names fix the low 18 bits of the string hash: home bucket known for every cache capacity <= 2^18
+SYM_CLASSES = ["3ffff", "0", "3fffe", "1ffff"]   # last bucket (chain wraps to bucket 0), bucket 0, last but one, last bucket at <= 2^17
+
+
+def symbol_pool(ctx, rng):
+    """names whose string hash - computed by the tree's own janet_string_calchash (harness/C01/symnames.c) - has chosen low
+    bits, so that generated programs can build colliding probe chains at chosen buckets of the symbol cache"""
+    exe = ctx.build.harness("plain", "c01symnames", [os.path.join(H, "symnames.c")])
+    classes = SYM_CLASSES + ["%x" % rng.below(1 << SYM_BITS)]
+    rc, out, err = run_cmd([exe, str(SYM_BITS), "10", "kw%d-" % rng.below(90), *classes], timeout=600)
+    pool = {}
+    for l in out.decode(errors="replace").splitlines():
+        f = l.split()
+        if len(f) >= 3:
+            pool[f[0]] = f[1:]
+    return pool
+
+
 def scenario_meta(path):
     need, opt, scheds, observes, stack = [], [], None, False, 0
     with open(path) as f:
@@ -141,6 +171,12 @@ def scenario_meta(path):
             m = re.match(r"#\s*edge(\??):\s*(\S+)", line)
             if m:
                 (opt if m.group(1) else need).append(m.group(2))
+            m = re.match(r"#\s*symcache:\s*(\S+)", line)
+            if m:
+                need.append("symcache:" + m.group(1))
+            m = re.match(r"#\s*worker:\s*(\S+)", line)
+            if m:
+                need.append("worker:" + m.group(1))
             m = re.match(r"#\s*schedules:\s*(.*)", line)
             if m:
                 scheds = m.group(1).split()
@@ -327,10 +363,12 @@ def _run(ctx, quick, broken, exes, driver, tmp, gen_info, only_replay):
         groups[g] = dict(prog=p, kind="scenario", need=need, opt=opt, observes=observes)
         beh = scheds or ["never", "always", "p16"]
         weaky = "weak" in os.path.basename(p)      # every collection of a weak-container scenario goes through the model's weak pass
-        jobs.append((g, Job(p, "plain", "never", graph=True, crit=True, dump=(1, 0, 12 if weaky else 1), stack_kb=stack)))
+        symy = "symcache" in os.path.basename(p)   # ... and every collection of a symbol-cache scenario through the model's cache pass
+        jobs.append((g, Job(p, "plain", "never", graph=True, crit=True, dump=(1, 0, 12 if weaky else (8 if symy else 1)), stack_kb=stack)))
         for s in beh[1:]:
             jobs.append((g, Job(p, "plain", s, seed=rng.next() % 10**9, graph=True,
-                                dump=(rng.range(2, 6), rng.below(6), 12) if weaky else (rng.range(2, 40), rng.below(40), 1), stack_kb=stack)))
+                                dump=(rng.range(2, 6), rng.below(6), 12) if weaky else ((rng.range(2, 9), rng.below(9), 3) if symy else (rng.range(2, 40), rng.below(40), 1)),
+                                stack_kb=stack)))
         if not observes:
             for v in ("asan", "asan_debugstack"):
                 for s in beh:
@@ -345,10 +383,17 @@ def _run(ctx, quick, broken, exes, driver, tmp, gen_info, only_replay):
     if only_replay:
         n_small = n_large = 0
     kinds = {}
+    sympool = {}
+    if n_small + n_large:
+        try:
+            sympool = symbol_pool(ctx, rng.fork("sympool"))
+        except BuildError as e:
+            broken.append("symbol-name helper does not build: %s" % str(e)[-300:])
+            ctx.broken.append(broken[-1])
     for i in range(n_small + n_large):
         small = i < n_small
         r = rng.fork("prog%d" % i)
-        src, k = pgen.generate(r, nstmts=r.range(6, 12) if small else r.range(25, 45), light=small)
+        src, k = pgen.generate(r, nstmts=r.range(6, 12) if small else r.range(25, 45), light=small, sympool=sympool)
         for kk, vv in k.items():
             kinds[kk] = kinds.get(kk, 0) + vv
         p = os.path.join(tmp, "gen%04d.janet" % i)
@@ -392,9 +437,12 @@ def _run(ctx, quick, broken, exes, driver, tmp, gen_info, only_replay):
         futs = {ex.submit(run_job, exes, jobs[i][1], tmp): i for i in order}
         for f in cf.as_completed(futs):
             results[futs[f]] = f.result()
-    ctx.say("executions done")
+    slow = sorted(((getattr(j, "secs", 0), j.key()) for _, j in jobs), reverse=True)[:8]
+    ctx.say("executions done; slowest: " + ", ".join("%s %.0fs" % (k, t) for t, k in slow))
     # ---------------------------------------------------------------- evaluate
-    tot = dict(pending_streams=0, collections=0, checked=0, nodes=0, edges=0, freed=0, forced=0, safepoints=0, dumps=0, opaque_collections=0)
+    tot = dict(pending_streams=0, collections=0, checked=0, nodes=0, edges=0, freed=0, forced=0, safepoints=0, dumps=0, opaque_collections=0,
+               sym_probes=0, sym_wrapped=0, sym_through_tomb=0, sym_freed=0, sym_last_freed=0, sym_last_freed_chain=0, sym_skipped=0,
+               worker_threads=0, worker_safepoints=0, worker_forced=0, worker_collections=0, worker_checked=0)
     label_edges, crit_seen = {}, {}
     n_exec = 0
     nviol_before = ctx.nviol
@@ -418,6 +466,10 @@ def _run(ctx, quick, broken, exes, driver, tmp, gen_info, only_replay):
                 label_edges[k] = label_edges.get(k, 0) + v
             if job.crit:
                 info["crit"] = crit
+                # symbol-cache situations met by this scenario (non-vacuity of `# symcache:` scenarios)
+                crit["symcache:last-bucket-chain"] = summary.get("sym_last_freed_chain", 0)
+                crit["symcache:tombstone-chain"] = summary.get("sym_through_tomb", 0)
+                crit["worker:collections"] = summary.get("worker_checked", 0)
                 for k, v in crit.items():
                     crit_seen[k] = max(crit_seen.get(k, 0), v)
             if r["dump"]:
@@ -509,6 +561,13 @@ def _run(ctx, quick, broken, exes, driver, tmp, gen_info, only_replay):
         "collections_total": tot["collections"], "collections_graph_checked": tot["checked"], "graph_nodes_visited": tot["nodes"],
         "graph_edges_visited": tot["edges"], "blocks_freed_checked": tot["freed"], "safepoints": tot["safepoints"], "forced_collections": tot["forced"],
         "pending_stream_root_checks": tot["pending_streams"],
+        "worker_thread_collections": {"threads": tot["worker_threads"], "safepoints": tot["worker_safepoints"], "forced": tot["worker_forced"],
+                                      "collections": tot["worker_collections"], "graph_checked": tot["worker_checked"]},
+        "symbol_cache_checks": {"collections_verified_after_a_symbol_was_freed_or_the_cache_changed": tot["checked"] + tot["worker_checked"] - tot["sym_skipped"],"probes_of_surviving_symbols": tot["sym_probes"], "probe_wrapped_past_last_bucket": tot["sym_wrapped"],
+                                "probe_stepped_over_tombstone": tot["sym_through_tomb"], "symbols_freed": tot["sym_freed"],
+                                "collections_freeing_the_last_bucket": tot["sym_last_freed"],
+                                "of_which_with_a_live_chain_through_it": tot["sym_last_freed_chain"],
+                                "engineered_name_classes": {k: len(v) for k, v in sorted(sympool.items())}},
         "collections_with_unknown_abstract_gcmark": tot["opaque_collections"],
         "edge_labels_seen": dict(sorted(label_edges.items())), "edge_labels_exclusive_max": dict(sorted(crit_seen.items())),
         "schedule_variant_histogram": sched_hist, "generated_statement_kinds": dict(sorted(kinds.items())),
@@ -521,7 +580,7 @@ def _run(ctx, quick, broken, exes, driver, tmp, gen_info, only_replay):
         "rooting discipline of C code (values held only in C locals across a safepoint) is TESTED by the schedule comparison under ASan, not proved",
         "the Lean model abstracts a block to (kind, ordered edge list with value/pointer/weak class); the harness's independent enumerator is the tie",
         "collections happen only at interpreter safepoints / explicit janet_collect calls; the forced-schedule hook covers maybe_collect in vm.c",
-        "worker threads (ev/thread) keep the default schedule",
+        "worker threads (ev/thread) get the same forced schedule (own PRNG stream per thread, numbered in start order) and the same graph oracle, serialised by a mutex; no model dumps are taken there",
     ])
 
 
